@@ -315,6 +315,17 @@ Theorem two_paths_deadlock_free :
     reachable2_g pof s -> (exists t, ord s t <> []) -> exists i t s', step2 pof s (i, (t, PGo)) = Some s'.
 Proof. exact two_paths_deadlock_free_lemma. Qed.
 
+(* Quiescence with two paths, any number of processes and threads, every interleaving, NO guard: when no thread has an
+   open request on either path, every pool of every process is empty on both paths (the lock objects are dropped, the
+   descriptors closed) and no process holds a kernel lock on either file. *)
+Theorem two_paths_quiescent_empty :
+  forall (pof : tid -> nat) (s : state2),
+    reachable2 pof s -> (forall t, ord s t = []) ->
+    forall (i : bool) (p : nat),
+      tl_ref (getp (comp s i) p) = 0 /\ fd_ref (getp (comp s i) p) = 0 /\ pl_ref (getp (comp s i) p) = 0 /\
+      getk (comp s i) p = KNone.
+Proof. exact two_paths_quiescent_lemma. Qed.
+
 (* ================================================================================================
    The users of path_lock (Users.v).  What the regenerated obligation `writers_take_exclusive :
    writers_ok sites = true` (compiled on every run against the site list read from the source) means:
